@@ -48,7 +48,7 @@ COMPONENTS_4T = ["sphere", "cylinder", "power_law", "sphere@hardsphere"]
 SHAPES = ["{0}+{1}", "{0}*{1}", "{0}+{1}+{2}", "{0}*{1}*{2}", "{0}+{1}*{2}", "{0}*{1}+{2}"]
 SHAPES4 = ["{0}+{1}+{2}+{3}", "{0}*{1}+{2}*{3}"]
 BOUNDS = {
-    "quick": {"components": COMPONENTS_Q, "shapes": SHAPES, "D": 2,
+    "quick": {"components": COMPONENTS_Q, "shapes": SHAPES, "D": 2, "D_2leaf": 3,
               "components_4leaf": COMPONENTS_4Q, "shapes_4leaf": SHAPES4, "D_4leaf": 2},
     "thorough": {"components": COMPONENTS_T, "shapes": SHAPES, "D": 3,
                  "components_4leaf": COMPONENTS_4T, "shapes_4leaf": SHAPES4, "D_4leaf": 2},
@@ -91,7 +91,7 @@ def cases(ctx):
     for shape in SHAPES:
         k = shape.count("{")
         for combo in itertools.product(comps, repeat=k):
-            out.append({"expr": shape.format(*combo), "D": D})
+            out.append({"expr": shape.format(*combo), "D": 3 if k == 2 else D})
     for shape in SHAPES4:
         for combo in itertools.product(comps4, repeat=4):
             out.append({"expr": shape.format(*combo), "D": 2})
